@@ -18,6 +18,7 @@ Exit codes: 0 held / 1 VIOLATION / 2 harness error.
 """
 import concurrent.futures as cf
 import faulthandler
+import fnmatch
 import hashlib
 import json
 import multiprocessing
@@ -56,7 +57,7 @@ def match_known(known, v):
     for e in known:
         if e.get('status') != 'open':
             continue
-        if e['component'] == v['component'] and e['symptom'] == v['symptom'] and e.get('trigger', 'any') in ('any', v.get('trigger')):
+        if e['component'] == v['component'] and e['symptom'] == v['symptom'] and (e.get('trigger', 'any') == 'any' or fnmatch.fnmatchcase(str(v.get('trigger')), e['trigger'])):
             return e
     return None
 
@@ -121,15 +122,19 @@ def _shrink_one(args):
     target = sig_of(v)
     faulthandler.dump_traceback_later(check.shrink_timeout + 60, exit=True)
     try:
+        known = load_known(check.pid)
+
         def still_fails(c):
+            # the same signature must persist AND stay outside the known findings (a reduction must not
+            # drift from a new violation onto a listed one, which would then be silently dropped)
             r = check.run(c)
-            return any(sig_of(x) == target for x in r['violations'])
+            return any(sig_of(x) == target and match_known(known, x) is None for x in r['violations'])
         spec = check.shrink_spec(scn) if hasattr(check, 'shrink_spec') else {}
         best, runs = SH.shrink(scn, still_fails, lists=spec.get('lists', ()), ints=spec.get('ints', ()),
                                resets=spec.get('resets', ()), normalise=spec.get('normalise'),
                                budget=SH.Budget(max_runs=spec.get('max_runs', 300), max_seconds=check.shrink_timeout))
         r = check.run(best)
-        vv = [x for x in r['violations'] if sig_of(x) == target]
+        vv = [x for x in r['violations'] if sig_of(x) == target and match_known(known, x) is None]
         return best, (vv[0] if vv else v), runs, r['digest']
     finally:
         faulthandler.cancel_dump_traceback_later()
@@ -289,6 +294,10 @@ def run_check(check, tier='quick', seed0=0, workers=None, runs=None, wall_cap=No
             seen[k] = seen.get(k, 0) + 1
             if seen[k] <= 1 and len(to_shrink) < 8 and 'scenario' in r:
                 to_shrink.append((r, v))
+        if seen:
+            print(f'[{pid}] unlisted violation signatures (component, symptom, trigger): count')
+            for k, c in sorted(seen.items(), key=lambda kv: (-kv[1], str(kv[0])))[:int(os.environ.get("AHRS_SIM_SIGS", "40"))]:
+                print(f'[{pid}]   {k}: {c}')
         if to_shrink and not harness_errors:
             sfuts = [(r, v, pool.submit(_shrink_one, (r['scenario'], v))) for r, v in to_shrink]
             for r, v, f in sfuts:
